@@ -1,6 +1,18 @@
-(* C19: what the message signature depends on.  The three string signatures are parameters
-   (Section variables of the model); everything else of GetMsgSig and String is modelled. *)
-From Sipsp Require Import Harness Tables SigWalk.
+(* C19: what the message signature depends on.  The three string signatures (Call-ID, From tag, Via
+   branch character classes) are parameters (Section variables of the model); everything else of
+   GetMsgSig and String is modelled.
+   PROVED: replies yield no signature; at most eight header entries; a header array too small for the
+   message gives the same signature or the explicit truncated verdict; the text rendering has a fixed
+   shape; the signature of a request is unchanged by inserting or removing a header of a type that
+   is not fingerprinted - anywhere in the list, with any name and value (SigInv.v:
+   C19_other_headers_do_not_matter) - and by repeating a header type after its first occurrence
+   (C19_later_repetitions_do_not_matter).  Both are statements about the walk over any header list
+   whose types are recorded in the parsed-header flags (`coherent`: the parser sets the flag of every
+   header it stores; unused array slots are of the unfingerprinted type HdrNone).
+   PARTIAL: that the signature is a function of method / order / long-compact form of the first
+   occurrences, the dependence on chunking (C01: chunked = one-shot objects) and the character-class
+   strings themselves are covered by the metamorphic oracle + a reference of the header part. *)
+From Sipsp Require Import Harness Tables SigWalk SigInv.
 Theorem C19_replies_yield_no_signature : forall cs ss vs m buf, msg_request m = false ->
   get_msg_sig cs ss vs m buf = Some (msgsig0, EEmpty).
 Proof. exact reply_no_sig. Qed.
@@ -19,3 +31,22 @@ Theorem C19_text_rendering_shape : forall s, sg_method s < 16 -> Forall (fun h =
   ~ (sg_method s = MUndef /\ sg_hdrsig s = []) ->
   length (sig_string s) = (1 + length (sg_hdrsig s) + 17)%nat.
 Proof. exact sig_string_shape. Qed.
+
+(* ---- invariances ------------------------------------------------------------------------------------------------------------------------------------------ *)
+Theorem C19_other_headers_do_not_matter : forall cs ss vs m m' buf h hs1 hs2,
+  same_fingerprint_sources m m' -> neutral (h_type h) ->
+  hl_hdrs (hs_l (m_hs m)) = hs1 ++ hs2 -> hl_hdrs (hs_l (m_hs m')) = hs1 ++ h :: hs2 ->
+  coherent (hl_pflags (hs_l (m_hs m))) (hs1 ++ hs2) ->
+  gsig_sig (get_msg_sig cs ss vs m' buf) = gsig_sig (get_msg_sig cs ss vs m buf).
+Proof. exact sig_ignores_other_headers. Qed.
+Theorem C19_later_repetitions_do_not_matter : forall cs ss vs m m' buf h hs1 hs2,
+  same_fingerprint_sources m m' -> In (h_type h) (map h_type hs1) -> h_type h < 16 ->
+  hl_hdrs (hs_l (m_hs m)) = hs1 ++ hs2 -> hl_hdrs (hs_l (m_hs m')) = hs1 ++ h :: hs2 ->
+  gsig_sig (get_msg_sig cs ss vs m' buf) = gsig_sig (get_msg_sig cs ss vs m buf).
+Proof. exact sig_ignores_later_repetitions. Qed.
+(* which types are "other": exactly those without a signature id (every type, incl. out-of-table ones) *)
+Theorem C19_unfingerprinted_types_have_no_signature_id : forall h, neutral (h_type h) -> snd (hdr_sig_id h) <> EOk.
+Proof. exact neutral_id. Qed.
+Example C19_neutral_examples : neutral HdrNone /\ neutral HdrOther /\ neutral HdrExpires /\ ~ neutral HdrVia /\ ~ neutral HdrFrom.
+Proof. unfold neutral. repeat split; try (vm_compute; reflexivity); vm_compute; discriminate. Qed.
+Print Assumptions C19_other_headers_do_not_matter.
